@@ -1,7 +1,75 @@
-(* C15 - property theorems only; proofs live in Proofs/OwnAreaProofs.v. *)
-From Coq Require Import List Bool ZArith QArith.
+(* C15 - Exclusively-owned area share.
+   Property theorems only; proofs live in Proofs/OwnAreaProofs.v.  Model: Model/OwnArea.v.
+
+   The laws are proved of the exact specification [own_share_grid] (integer axis-aligned boxes, coordinate
+   compression, elementary cells), for ALL finite sets of integer boxes.
+
+   PARTIAL (own_share_partial), kept visible:
+     grid_eq_ie_axis_aligned :
+       forall b others, ibox_ok b -> Forall ibox_ok others ->
+         own_share_grid b others == uncovered Qops (rect of b) (map rect others) / area b
+     (the inclusion-exclusion specification own_shares_ie, which is what the check uses for rotated boxes, agrees
+     with the grid specification on integer axis-aligned boxes) is NOT proved; the laws of own_shares_ie for rotated
+     boxes rest on C08's unproved area link (clip_area_eq_ref); and that geo's sweep-line BooleanOps::difference
+     equals either specification and never fails is not a statement about any Gallina term.  These three are
+     carried by the correspondence only (tools/props/c15.py): own_shares_grid evaluated by coqc on every integer
+     set and compared exactly with an independent slab-decomposition reference and, within 2e-5, with the
+     implementation; own_shares_ie replayed exactly on every set, a subset evaluated by coqc. *)
+From Coq Require Import List Bool ZArith QArith Permutation Lia.
 From Similari Require Import Base.Num Model.Geom Model.OwnArea Proofs.OwnAreaProofs.
 Import ListNotations.
+Open Scope Q_scope.
 
+Theorem share_in_unit_interval :
+  forall b others, ibox_ok b -> 0 <= own_share_grid b others <= 1.
+Proof. exact share_in_unit_interval_lemma. Qed.
+
+(* a box whose interior meets no other box owns all of its area *)
+Theorem share_one_if_disjoint :
+  forall b others, ibox_ok b -> (forall o, In o others -> idisjoint b o) -> own_share_grid b others == 1.
+Proof. exact share_one_if_disjoint_lemma. Qed.
+
+(* a box every unit cell of which lies in some other box (covered by the UNION of the others) owns nothing *)
+Theorem share_zero_if_covered :
+  forall b others, icovered b others -> own_share_grid b others == 0.
+Proof. exact share_zero_if_covered_lemma. Qed.
+
+(* the order in which the other boxes are given does not matter *)
+Theorem share_permutation_invariant :
+  forall b others others', Permutation others others' -> own_share_grid b others = own_share_grid b others'.
+Proof. exact share_permutation_invariant_lemma. Qed.
+
+(* the share is 1 - |b /\ union of the others| / |b|, the union's area being counted cell-wise *)
+Theorem share_is_uncovered_measure :
+  forall b others, ibox_ok b ->
+    own_share_grid b others == 1 - Qmake (covered_area_grid b others) (Z.to_pos (ibox_area b)).
+Proof. exact share_is_uncovered_measure_lemma. Qed.
+
+(* the cells inside a box add up to the area of the box (what makes the cell-wise measure a measure) *)
+Theorem grid_cells_tile_the_box :
+  forall bs b, In b bs -> ibox_ok b -> cells_sum (xs_of bs) (ys_of bs) (cell_in b) = ibox_area b.
+Proof. exact cells_sum_box_area. Qed.
+
+(* one share per box; the normalisation own / (area + EPS) clamped at 1 stays in [0,1] *)
 Theorem one_share_per_box : forall bs, length (own_shares_grid bs) = length bs.
 Proof. exact own_shares_grid_length. Qed.
+
+Theorem share_normalise_in_unit_interval :
+  forall own area : Q, 0 <= own -> 0 <= area -> 0 <= share_normalise Qops own area <= 1.
+Proof. exact share_normalise_range. Qed.
+
+(* Non-vacuity: the unit test of bbox_own_areas.rs (three 10 x 10 boxes on a diagonal) under both specifications *)
+Example c15_nonvacuous :
+  own_shares_grid [mkibox 0 0 10 10; mkibox 5 5 15 15; mkibox 10 10 20 20] = [75 # 100; 50 # 100; 75 # 100] /\
+  own_shares_ie Qops [mkbox (num:=Qops) 5 5 1 0 1 10; mkbox (num:=Qops) 10 10 1 0 1 10; mkbox (num:=Qops) 15 15 1 0 1 10]
+    = [7500000 # 10000001; 5000000 # 10000001; 7500000 # 10000001] /\
+  icovered (mkibox 1 1 3 3) [mkibox 0 0 2 4; mkibox 2 0 4 4] /\
+  idisjoint (mkibox 0 0 1 1) (mkibox 1 0 2 1).
+Proof.
+  split; [vm_compute; reflexivity|]. split; [vm_compute; reflexivity|]. split.
+  - intros i j Hi Hj. cbn [ix0 ix1 iy0 iy1] in *.
+    destruct (Z_lt_le_dec i 2).
+    + exists (mkibox 0 0 2 4). cbn. split; [now left | lia].
+    + exists (mkibox 2 0 4 4). cbn. split; [right; now left | lia].
+  - unfold idisjoint. cbn. lia.
+Qed.
